@@ -27,6 +27,10 @@ def mk_doc(h, spec, counter):
         if k == 'M':
             meta = b[1]
             continue
+        if k == 'B':            # a leading blank line: every block starts one line later
+            line[0] += 1
+            neutral.append({'k': 'Blank'})
+            continue
         if k == 'H':
             t = tok(); r, l = lr()
             lv = b[1] if len(b) > 1 else 1
@@ -141,7 +145,7 @@ def scan_links(blocks, note_key, out_block, out_inline, ord_counter):
     """pre-order scan of a neutral document: ordinals follow arena pre-order (container nodes count too)"""
     for b in blocks:
         k = b['k']
-        if k == 'Meta':
+        if k in ('Meta', 'Blank'):
             continue
         if k == 'Ref':
             o = ord_counter[0]; ord_counter[0] += 1
@@ -163,6 +167,23 @@ def scan_links(blocks, note_key, out_block, out_inline, ord_counter):
             ord_counter[0] += 1
             for it in b['items']:
                 scan_links(it, note_key, out_block, out_inline, ord_counter)
+
+def line_blocks(blocks, out, ord_counter):
+    """(pre-order ordinal, [start, end)) of every block that has a line range, in document order"""
+    for b in blocks:
+        k = b['k']
+        if k in ('Meta', 'Blank'):
+            continue
+        o = ord_counter[0]; ord_counter[0] += 1
+        if k in ('Bullet', 'Ordered'):
+            for it in b['items']:
+                line_blocks(it, out, ord_counter)
+            continue
+        if 'lr' in b:
+            out.append((o, b['lr']))
+        if k == 'Quote':
+            line_blocks(b['c'], out, ord_counter)
+    return out
 
 def inline_urls(inl):
     for i in inl:
@@ -303,7 +324,7 @@ class LibHarness(Harness):
             old_spec = ([('M', 'title: x\n')] if ctx.choose(2) else []) + [('H',), ('P',)]
         elif quick:
             old_menu = [[], [('P',)], [('R', oth)], [('I', oth)], [('R', 'zz')], [('I', 'zz')],
-                        [('T',), ('P',)], [('T',), ('R', oth)], [('C',), ('I', oth)], [('U',), ('P',)], [('P',), ('Hs',)]]
+                        [('T',), ('P',)], [('T',), ('R', oth)], [('C',), ('I', oth)], [('U',), ('P',)], [('P',), ('Hs',)], [('B',), ('P',)]]
             old_spec = ([('H',)] if ctx.choose(2) else []) + old_menu[ctx.choose(len(old_menu))]
         else:
             old_spec = gen_doc_spec(ctx, targets[:2], 1, False)
@@ -368,6 +389,17 @@ class LibHarness(Harness):
                     a = None if ri.vi == 0 else name_id(ri.f[0].v, nodes_i, omi)
                     b = None if rf.vi == 0 else name_id(rf.f[0].v, nodes_f, omf)
                     ctx.law('C04.incremental-equals-fresh:node_at_line', a == b, dict(info, observation='node_at_line:' + k, incremental=a, fresh=b, step=step))
+                    # C13: the block found at a line is the innermost (last in document order) block whose lines contain it
+                    lbs = line_blocks(self.cur_docs[texts[k]][0], [], [0])
+                    inside = lambda lr: z3.And(z3.UGE(line, lr[0]), z3.ULT(line, lr[1]))
+                    if b is None:
+                        ctx.law('C13.block-at-line-found-whenever-a-block-covers-the-line', z3.Not(z3.Or(*[inside(lr) for o, lr in lbs])) if lbs else True,
+                                dict(info, note=k, found=None, blocks=lbs))
+                    else:
+                        later = [lr for o, lr in lbs if o > b[1]]
+                        mine = [lr for o, lr in lbs if o == b[1]]
+                        ok = z3.And(inside(mine[0]), *[z3.Not(inside(lr)) for lr in later]) if mine else False
+                        ctx.law('C13.block-at-line-is-the-innermost-block-covering-it', ok, dict(info, note=k, found=list(b), blocks=lbs))
                     return (a, b)
                 ctx.forall(lookup)
             # ---- C12: ids answered by the reference index are live nodes (handlers call node_key / line ranges on them unguarded)
@@ -669,6 +701,9 @@ def render_neutral(blocks, indent=''):
         k = b['k']
         if k == 'Meta':
             front = '---\n' + b['t'] + '---\n\n'
+            continue
+        if k == 'Blank':
+            front = front + '\n'
             continue
         prev_kind, last_k = last_k, k
         if k == 'Header': out.append('#' * b.get('lv', 1) + ' ' + inl(b))
